@@ -48,7 +48,9 @@ func init() {
 		Rule: "2 charts x 2 generated keys (RSA-2048, ECDSA-P256; fixed-seed generation) signed through Signatory.ClearSign. Per (chart,key) pair, structured families: " +
 			"unmodified (ClearSign output and time-pinned re-signature), missing provenance, 5 renamed/moved archives (by copy) and 5 renames through symbolic links " +
 			"(archive linked; archive and provenance linked; to another name or to the own name in another directory), 12 tamper-class representatives, every other pair's provenance (also with the archive renamed to match), " +
-			"text/armor splices, keyring-file sequences in one process (one path rewritten in place ring1 -> ring2 -> ring1 for all 12 ordered pairs of keyring contents, and one content under " +
+			"text/armor splices, content-differs-per-open cases (archive and provenance behind named pipes whose k-th open yields the k-th of two contents: 22 sequences of " +
+			"genuine / forged-unsigned / forged-signed-by-the-other-key provenance and original / tampered archive, keyrings signer and other+signer, the 4 entry points taking a local path; " +
+			"judged by what was actually served at each open), keyring-file sequences in one process (one path rewritten in place ring1 -> ring2 -> ring1 for all 12 ordered pairs of keyring contents, and one content under " +
 			"two paths, each for the unmodified pair and for a pair with one archive bit flipped, judged after every step), a grid of messages validly signed by the trusted key (8 name keys x 12 digest values x 3 second entries) and 7 repeated-entry messages, " +
 			"under the keyrings {signer, other+signer, other only, empty}, through 9 entry points: Signatory.Verify, VerifyChart, DownloadTo(VerifyAlways), LocateChart(--verify), " +
 			"action.Verify and action.Pull with Verify set x {VerifyLater} x {Untar} over a loopback HTTP server (the 4 pulls without Verify are executed on 4 classes, unjudged). Positional families: every single-bit flip and every truncation length of the " +
@@ -65,12 +67,15 @@ func init() {
 			"messages that list the archive name more than once have no defined meaning in the statement: only 'no listed value matches => reject' is required of them",
 			"action.Pull only accepts the built-in getters, so the Pull entry points fetch from an HTTP server on 127.0.0.1 owned by the worker; with Verify set, " +
 				"a failed pull must return an error and leave nothing in the untar directory; pulls without Verify are outside the statement",
+			"family reopen needs named pipes and /proc/self/fd (Linux); every entry-point call in it has a 60 s deadline, an expired deadline is reported as not exhaustive " +
+				"under the name reopen/deadline-exceeded/<sequence>, never as a violation",
 			"a symbolic link offered under its own file name whose provenance exists only next to the link target is not judged (not generated)",
 			"a panic inside Helm is counted (outcome panic) and is a C17 violation only when the reference accepts the case",
 		},
 		RequiredFloors: []string{"real-clearsign-roundtrip", "accept-baseline", "accept-noop-mutant", "reject-no-block", "reject-bad-signature",
 			"reject-unknown-key", "reject-digest-mismatch", "reject-no-entry", "reject-no-prov", "download-verifyalways-error", "accept-in-subdir",
-			"ring-rewrite:accept-then-reject", "ring-rewrite:reject-then-accept", "ring-rewrite:reject-then-reject", "ring-copy:accept-then-accept", "ring-copy:reject-then-reject"},
+			"ring-rewrite:accept-then-reject", "ring-rewrite:reject-then-accept", "ring-rewrite:reject-then-reject", "ring-copy:accept-then-accept", "ring-copy:reject-then-reject",
+			"reopen-accept", "reopen-reject-digest-mismatch", "reopen-reject-file-never-read", "reopen-one-open-per-file"},
 	})
 }
 
@@ -113,6 +118,10 @@ type caseIn struct {
 	LinkTarget string `json:"link_target,omitempty"`
 	// Entries restricts the entry points to run (empty = all).
 	Entries []string `json:"entries,omitempty"`
+	// ProvSeq/ArchSeq (family reopen): the k-th open of the provenance / archive
+	// path yields the k-th item (the last one for further opens); see reopen.go.
+	ProvSeq []seqItem `json:"prov_seq,omitempty"`
+	ArchSeq []seqItem `json:"arch_seq,omitempty"`
 	// Steps, when set, makes the case a sequence run in one process: before each
 	// step the keyring file of that step is (re)written, then every entry point
 	// runs and is judged against the reference for the keyring content of that step.
@@ -623,6 +632,10 @@ func replay(c *core.Ctx, data json.RawMessage) []core.Violation {
 	defer os.RemoveAll(root)
 	e := newEnv(root)
 	defer e.close()
+	if len(ci.ProvSeq) > 0 {
+		_, vs, _ := e.execReopen(&ci, 0)
+		return vs
+	}
 	if len(ci.Steps) > 0 {
 		_, vs := e.execSteps(&ci)
 		return vs
@@ -1209,6 +1222,9 @@ func (x *explorer) structured() {
 		}
 		if x.want("ring-") {
 			x.ringFiles(pi)
+		}
+		if x.want("reopen") {
+			x.reopenCases(pi)
 		}
 	}
 }
